@@ -374,9 +374,14 @@ DhtServer::create_announce_peer_response(const DhtMessage& req, const sockaddr* 
   if (!sa_is_inet(sa))
     throw internal_error("DhtServer::create_announce_peer_response called with non-inet address.");
 
+  auto port = req[key_a_port].as_value();
+
+  if (port < 1 || port > 65535)
+    throw dht_error(dht_error_protocol, "Invalid port.");
+
   DhtTracker* tracker = m_router->get_tracker(*HashString::cast_from(info_hash.data()), true);
 
-  tracker->add_peer(reinterpret_cast<const sockaddr_in*>(sa)->sin_addr.s_addr, req[key_a_port].as_value());
+  tracker->add_peer(reinterpret_cast<const sockaddr_in*>(sa)->sin_addr.s_addr, port);
 }
 
 void
